@@ -368,7 +368,9 @@ func (in *Interp) exec(st Stat, sc *scope, f *frame) (signal, []Value, *scope) {
 		return sigNone, nil, sc
 	case *IfStat:
 		for i, c := range s.Conds {
-			setPos(f, s.ClauseFirst[i], s.ClauseLast[i])
+			if i < len(s.ClauseFirst) {
+				setPos(f, s.ClauseFirst[i], s.ClauseLast[i])
+			}
 			if Truthy(in.eval1(c, sc, f)) {
 				sig, vals := in.execBlock(s.Blocks[i], sc, f)
 				return sig, vals, sc
